@@ -146,10 +146,28 @@ func (g *codeGenerator) genTypes(types map[string]*Type) {
 }
 
 func (g *codeGenerator) genMsgs(msgs []*Msg) {
-	g.p("import (")
-	g.p("\"math\"")
-	g.p("\"time\"")
-	g.p(")")
+	// Generate the messages first: which imports are needed depends on
+	// the product profile. Without any scaled field "math" is unused,
+	// without any time field "time" is, and the output would not compile.
+	out := g.Buffer
+	g.Buffer = new(bytes.Buffer)
+	defer func() {
+		body := g.Buffer.Bytes()
+		g.Buffer = out
+		needMath := bytes.Contains(body, []byte("math.NaN()"))
+		needTime := bytes.Contains(body, []byte("time.Time"))
+		if needMath || needTime {
+			g.p("import (")
+			if needMath {
+				g.p("\"math\"")
+			}
+			if needTime {
+				g.p("\"time\"")
+			}
+			g.p(")")
+		}
+		g.Write(body)
+	}()
 	for _, msg := range msgs {
 		g.p()
 		g.p("// ", msg.CCName, "Msg represents the ", msg.Name, " FIT message type.")
